@@ -701,6 +701,8 @@ def main(chk: lib.Check) -> int:
         "only square mazes are judged (from_tokens builds a square grid; statement quantifies over grid sizes 2..20)",
         "mazes beyond 3x3 are seeded samples of the generators, not exhaustive; the as_tokens shuffle is driven by seeded numpy/random state",
     ]
+    from harness.checks import tokutils_common
+    tokutils_common.run(chk, thorough)
     return chk.finish(
         "TokLegacy.tla model-checked over every admissible emission of all tiny mazes (premise shown necessary); every recorded real tokenization judged by the TLA+ oracle: "
         "four re-parses equal the original maze field by field, legacy and modular streams Equivalent, dataset outputs = per-maze tokenizations in order under limit/join"
